@@ -17,6 +17,9 @@ RULE = (
     "raise exactly for non-str, empty after strip, a forbidden character, apostrophe first/last, else store the stripped name; "
     "NamedRange names per docstring. Evaluations = machine steps + name cases. Non-trivial = history in which a run was split "
     "or merged (XML item count changed) or a name with a special character; distinct by (initial, ops) / name."
+    ' Histories include strip_cycle, live_row, kept Row objects and office-shaped initial tables. Named-range names: constr'
+    "uctor, name setter and Table.set_named_range; letters of other scripts + ASCII digits + '_' (letter/'_' first) must be"
+    ' accepted (column letters are A-Z only).'
 )
 ASSUMPTIONS = [
     "lxml parses the serialisation; the lint rules are the ones stated in the property",
